@@ -463,6 +463,7 @@ func encFirstDiff(a, b string) string {
 }
 
 func runEnc(c *Ctx) {
+	encModuleNameOracle(c)
 	c.Rule("constants: fixed pool (every kind, extreme numbers, NaN payloads, -0, empty/non-UTF-8/70000-byte strings, nested containers, compiled functions with every zero/non-zero field combination, functions, builtin functions, sync maps, gob-fallback objects nested) plus 300*Scale random nested values, each encoded through the exported wrapper and decoded again; programs: 150*Scale generated uGO scripts (literals of every kind, closures, variadics, loops, try/catch/finally/throw, runtime errors inside functions and modules, stdlib / source / custom builtin modules), compiled with and without the optimizer, encoded, decoded, re-encoded, decoded again and run on 3 inputs each; a case is non-trivial when it decodes; distinct = distinct (kind, type or feature set, outcome class)")
 	// gen.NewRand(seed) states of neighbouring seeds are one step apart on the same
 	// splitmix sequence; forking first moves every seed to an unrelated offset.
